@@ -5,6 +5,7 @@
 package route
 
 import (
+	"strings"
 	"sync"
 
 	"github.com/cnotch/ipchub/utils"
@@ -127,7 +128,7 @@ func (t *routetable) Match(path string) *Route {
 	if r != nil {
 		ret := *r
 		r = &ret
-		if r.URL[len(r.URL)-1] == '/' {
+		if strings.HasSuffix(r.URL, "/") {
 			r.URL = r.URL + path[len(r.Pattern):]
 		} else {
 			r.URL = r.URL + path[len(r.Pattern)-1:]
